@@ -310,6 +310,44 @@ func vfC29Run(v *vfT, c vfC29Case) {
 	var removed []*vfC29Binding // unbound (their writers must stay silent)
 	var rejected []*vfC29Binding
 	shared := &vfC29Shared{}
+	// every packet / buffer the caller ever handed over stays the caller's: deep copies are kept for
+	// the whole history and re-compared after every later operation and at the end
+	type heldPkt struct {
+		opi    int
+		pkt    *rtp.Packet // the caller's packet
+		before *rtp.Packet // deep copy taken before the call
+		wire   []byte      // buffer backing the caller's payload
+		wire0  []byte      // its copy
+	}
+	type heldBuf struct {
+		opi       int
+		buf, orig []byte
+	}
+	var heldPkts []heldPkt
+	var heldBufs []heldBuf
+	recheckHeld := func(opi int, what string) {
+		for _, h := range heldPkts {
+			if !reflect.DeepEqual(h.before, h.pkt) {
+				class := "C29/caller-packet-modified/later"
+				switch {
+				case !reflect.DeepEqual(h.before.Header.CSRC, h.pkt.Header.CSRC):
+					class += "/csrc"
+				case !reflect.DeepEqual(h.before.Header.Extensions, h.pkt.Header.Extensions):
+					class += "/extensions"
+				}
+				v.Violation(class, "after op %d (%s): the packet the caller passed to WriteRTP in op %d has changed although that call had returned:\n before %+v\n now    %+v", opi, what, h.opi, h.before, h.pkt)
+			}
+			if !bytes.Equal(h.wire, h.wire0) {
+				v.Violation("C29/caller-buffer-modified/later", "after op %d (%s): the buffer backing the payload of the packet passed to WriteRTP in op %d has changed", opi, what, h.opi)
+			}
+		}
+		for _, h := range heldBufs {
+			if !bytes.Equal(h.buf, h.orig) {
+				v.Violation("C29/caller-buffer-modified/later", "after op %d (%s): the buffer the caller passed to Write in op %d has changed", opi, what, h.opi)
+			}
+		}
+	}
+	sawRichWriteRTP, sawRichSequence := false, false
 	nextID := 0
 	writes, maxLive, unbindsWithOthers := 0, 0, 0
 
@@ -359,6 +397,9 @@ func vfC29Run(v *vfT, c vfC29Case) {
 	}
 
 	for opi, op := range c.Ops {
+		if opi > 0 {
+			recheckHeld(opi-1, c.Ops[opi-1].Op)
+		}
 		switch op.Op {
 		case "bind":
 			if len(live) >= 5 {
@@ -474,6 +515,10 @@ func vfC29Run(v *vfT, c vfC29Case) {
 			}
 			_ = track.WriteRTP(pkt)
 			writes++
+			heldPkts = append(heldPkts, heldPkt{opi, pkt, before, wire, append([]byte{}, wire...)})
+			if len(op.Pkt.CSRC) > 0 || op.Pkt.ExtKind != 0 {
+				sawRichWriteRTP = true
+			}
 			if sched != nil {
 				// join the concurrent Unbind (on the unchanged code it can only finish now)
 				shared.sched = nil
@@ -544,6 +589,10 @@ func vfC29Run(v *vfT, c vfC29Case) {
 			orig := append([]byte{}, buf...)
 			n, werr := track.Write(buf)
 			writes++
+			heldBufs = append(heldBufs, heldBuf{opi, buf, orig})
+			if sawRichWriteRTP && (len(op.Pkt.CSRC) > 0 || op.Pkt.ExtKind != 0) {
+				sawRichSequence = true
+			}
 			if !bytes.Equal(orig, buf) {
 				v.Violation("C29/caller-buffer-modified/Write", "op %d: caller's buffer changed by Write", opi)
 			}
@@ -576,6 +625,12 @@ func vfC29Run(v *vfT, c vfC29Case) {
 				return vfC29Wire(op.Pkt, b.ssrc, b.pt, false)
 			})
 		}
+	}
+	if len(c.Ops) > 0 {
+		recheckHeld(len(c.Ops)-1, c.Ops[len(c.Ops)-1].Op)
+	}
+	if sawRichSequence {
+		v.Label("writertp(csrc/ext)-then-write(csrc/ext)")
 	}
 	if maxLive >= 2 && writes >= 2 && unbindsWithOthers >= 1 {
 		v.NonTrivial()
@@ -684,6 +739,7 @@ func TestVerif_C29_Histories(t *testing.T) {
 			"a packet is well formed: padding flag set iff the padding count is non-zero; one-byte extension ids 1..14 with 1..16 bytes, two-byte ids 1..255 with 0..255 bytes",
 			"what a binding 'receives' is the serialisation rtp.MarshalPacketTo(header, payload) that pion's own senders produce from the writer's arguments; padding octets other than the count are not significant",
 			"a truncated buffer passed to Write is a packet only if pion/rtp parses it; then the expectation is pion/rtp's own re-serialisation",
+			"every packet passed to WriteRTP and every buffer passed to Write is kept (deep copy) and re-compared after every later operation and at the end of the history",
 			"harness-owned schedule (some WriteRTP ops): a second goroutine calls Unbind of another live binding while the fan-out is inside one binding's writer, which waits 3 ms or until that Unbind returned (the wait only selects the schedule). Oracle for that call: the unbound binding receives the packet at most once and never in a per-binding write that began after its Unbind had returned; every other live binding exactly once",
 		},
 	}, vfC29Gen, vfC29Run)
